@@ -8,6 +8,8 @@ package zzverifw
 // is a quantifier the solver enumerates.
 
 import (
+	"strings"
+
 	"github.com/Syuparn/pangaea/object"
 	rt "github.com/Syuparn/pangaea/zzverifrt"
 )
@@ -71,6 +73,8 @@ var c08Templates = []c08T{
 	{"array of objects equality", `bad := {'==: m{|o| raise ValueErr.new("boom")}}`, `[mark(1), [{a: bad, b: 1}] == [{a: bad, b: 2}]]`, 1, `[1, false]`},
 	{"two keyword ** expansions sharing a name: first wins", `f2 := {|x: 0, y: 0| [x, y]}`, `f2(**{x: mark(1)}, **{x: 9, y: mark(2)})`, 2, `[1, 2]`},
 	{"keyword ** expansion after an explicit keyword and another expansion", `f2 := {|x: 0, y: 0| [x, y]}`, `f2(y: 1, **{x: mark(1), y: 8}, **{x: 7, y: mark(2)})`, 2, `[1, 1]`},
+	{"(known finding C08/interpolation-after-lone-hash) an interpolated part after a lone #", "", "\"# #{mark(1)}\"", 1, `"# 1"`},
+	{"interpolated parts are evaluated and converted one after the other", `s1 := {S: m{|| mark(1); "s"}}; s3 := {S: m{|| mark(3); "t"}}`, `"a#{s1}b#{mark(2)}c#{s3}"`, 3, `"asb2ct"`},
 	// printing: keys / parameter names that print alike must not make the order depend on the layout
 	{"map printing with keys that print alike", "", `%{1.0000001: mark(1), 1.0000002: mark(2), 1.0000003: mark(3)}.S`, 3, `"%{1.000000: 1, 1.000000: 2, 1.000000: 3}"`},
 	{"map repr with keys that print alike", "", `%{1.0000001: mark(1), 1.0000002: mark(2), 1.0000003: mark(3)}.repr`, 3, `"%{1.000000: 1, 1.000000: 2, 1.000000: 3}"`},
@@ -88,6 +92,7 @@ func H_C08_order() {
 	}
 	h.Reset()
 	rt.Note(t.name + ": " + t.src)
+	rt.Known("C08/interpolation-after-lone-hash", strings.HasPrefix(t.name, "(known finding C08/interpolation-after-lone-hash)"))
 	rt.MapOrder(4)
 	res := h.EvalNoPanic(t.src)
 	rt.MapOrder(0)
